@@ -253,7 +253,7 @@ func TestVerifC06B(t *testing.T) {
 				case 7:
 					q = []verifreg.Mode{verifreg.Short}
 				case 8:
-					q = []verifreg.Mode{verifreg.Forbidden, verifreg.Forbidden}
+					q = []verifreg.Mode{verifreg.Forbidden, verifreg.Forbidden, verifreg.Forbidden, verifreg.Forbidden, verifreg.Forbidden, verifreg.Forbidden}
 				case 9:
 					q = []verifreg.Mode{verifreg.FirstOnly}
 				}
